@@ -38,7 +38,7 @@ def gen_plan(rng, tier, index):
     n_ch = nc + rng.pick([0, 0, 1, 3, 10]) if rng.chance(0.92) else max(1, nc - rng.randint(1, 2))
     plan = {'n_cond': nc, 'points': pts, 'kind': kind, 'theta': theta, 'n_part': n_part, 'design': design,
             'perm_seed': rng.randrange(10 ** 6), 'labels': sorted(rng.sample(range(0, 40), nc)),
-            'n_channel': n_ch, 'n_sim': rng.randint(1, 4), 'signal': rng.pick([0.5, 1, 2, 7]),
+            'n_channel': n_ch, 'n_sim': rng.randint(1, 4), 'signal': rng.pick([0.5, 1, 2, 7, 0.5, 1, 2, 7, 0]),      # (0: a null simulation, pure noise)
             'noise': rng.pick([0, 0, 0.25, 1, 3]), 'noise2': rng.pick([0.5, 2, 9]),
             'noise_cov': rng.chance(0.3), 'cov_seed': rng.randrange(10 ** 6),
             'use_exact_signal': rng.chance(0.7), 'use_same_signal': rng.chance(0.4),
@@ -431,7 +431,8 @@ def execute(plan, ctx):
             #  space of dimension <= 1, so different draws may legitimately give the same signal: judged at the seam only)
             for s in range(1, n_sim):
                 differ = not np.array_equal(np.asarray(sig_draws[s]['result']), np.asarray(sig_draws[0]['result']))
-                if differ and np.allclose(sig_terms[s], sig_terms[0], atol=1e-9 * scale, rtol=0) and float(np.max(np.abs(pred))) > 0:
+                if (differ and np.allclose(sig_terms[s], sig_terms[0], atol=1e-9 * scale, rtol=0) and float(np.max(np.abs(pred))) > 0
+                        and plan['signal'] != 0):      # (a null simulation has the same -- zero -- signal term every time)
                     ctx.violation('sim_ref.clause3', 'make_dataset:fresh-signal:reused',
                                   f'default (fresh signal): simulation {s} has the same signal as simulation 0 although the served draws differ')
                     return
